@@ -452,6 +452,14 @@ func checkCompilePanics(e *Env, m *e1Model, fns []*ssa.Function) {
 					if _, ok := x.Map.(*ssa.MakeMap); !ok {
 						r.Bad("E6.panic", load.FuncName(f)+"/mapupdate", p.Pos(x.Pos()), "store into a map that may be nil")
 					}
+				case *ssa.IndexAddr, *ssa.Index, *ssa.Slice:
+					// a check the compiler proved to fail is not in its listing of undecided checks
+					if v, need, ok := nopanic.Need(in); ok && need > 0 {
+						if ub, have := nopanic.MaxLen(v, b); have && ub < need {
+							r.Bad("E6.panic", load.FuncName(f)+"/bounds-always-fail", p.Pos(in.Pos()),
+								fmt.Sprintf("the expression needs len >= %d but the dominating conditions say len <= %d: it panics whenever it is reached", need, ub))
+						}
+					}
 				}
 			}
 		}
